@@ -28,6 +28,7 @@ in the evidence as a search for a failing parameter set, never as a theorem.
 import NflVerif.Proofs.GaussMass
 import NflVerif.Proofs.GaussBuild
 import NflVerif.Proofs.GaussLoop
+import NflVerif.Proofs.GaussParams
 
 namespace Nfl.C10
 open Nfl.Gauss
@@ -128,5 +129,45 @@ theorem buildLUT2_out_of_range_witness : buildLUT 2 4 [[0, 2], [1, 3], [3, 2]] 0
 
 /-- the masses of the example: `B = 2, 7, 15` out of `16`, outputs `-1, 0, 1, 2` get `2, 5, 8, 1` -/
 example : (List.range 4).map (fun k => massHi 4 2 exBs k - massLo 4 exBs k) = [2, 5, 8, 1] := by decide
+
+/-! ### the sample budget `m`
+
+`m` (like `lambda`) enters the construction only through `k = lambda + 1 + ⌈log₂ m⌉` (`kOf`, Model/GaussParams.lean): the
+tail bound and the working precision are derived from `2^-k`.  The barrier table stays a parameter of the theorems
+above; what is proved about `k` is that it does give every one of the `m` samples a share `2^-k ≤ 2^-(lambda+1) / m` of
+the advertised `2^-lambda` — for EVERY `m ≥ 1`, not only powers of two — and that the exact-integer conditions the driver
+evaluates on the live object's `_number_of_barriers` / `_bit_precision` (`gpar` lines: `tailOK`, `precOK`) can only be
+lost, never gained, by a `k` that is too small. -/
+
+/-- **`m · 2^-k ≤ 2^-(lambda+1)`** for every sample budget (`⌈log₂ m⌉` is the least exponent with this property:
+`clog2_least`). -/
+theorem budget_covers_all_samples (lam m : Nat) : m * 2 ^ (lam + 1) ≤ 2 ^ kOf lam m := by
+  have h : 2 ^ kOf lam m = 2 ^ (lam + 1) * 2 ^ clog2 m := by unfold kOf; exact Nat.pow_add ..
+  rw [h, Nat.mul_comm]
+  exact Nat.mul_le_mul_left _ (le_two_pow_clog2 m)
+
+/-- `⌈log₂ m⌉` is the least such exponent, and it is the exponent itself on powers of two. -/
+theorem clog2_least {m j : Nat} (h : m ≤ 2 ^ j) : clog2 m ≤ j := clog2_le_of_le_two_pow h
+
+theorem kOf_two_pow (lam j : Nat) : kOf lam (2 ^ j) = lam + 1 + j := by
+  unfold kOf; rw [clog2_two_pow]
+
+/-- a larger sample budget never gets a smaller `k` (the number of trailing zero bits of `m`, for one, is not monotone). -/
+theorem kOf_mono {lam m m' : Nat} (h : m ≤ m') : kOf lam m ≤ kOf lam m' := by
+  unfold kOf; have := clog2_mono h; omega
+
+/-- the conditions evaluated on the live parameters are antitone in `k`: an object that satisfies them for the `k` of its
+`(lambda, m)` satisfies them for every smaller `k` — so a violation can only come from a `k` below `kOf lambda m`
+(or from a wrong tail bound / precision for the right `k`). -/
+theorem paramsOK_antitone {k k' nb sn sd bits : Nat} (hk : k' ≤ k)
+    (h : tailOK k nb sn sd = true ∧ precOK k nb bits = true) :
+    tailOK k' nb sn sd = true ∧ precOK k' nb bits = true :=
+  ⟨tailOK_anti hk h.1, precOK_anti hk h.2⟩
+
+/-- non-vacuity, on the numbers of a real object (8-bit index, sigma = 3.19, lambda = 128, m = 10^6: 20 words, 95
+barriers): the conditions hold for `k = 128 + 1 + 20`, and the same object built for a `k` that forgot 14 of the 20
+bits (`m = 10^6` has 6 trailing zero bits) has 91 barriers in 18 words and fails. -/
+example : kOf 128 1000000 = 149 ∧ paramsOK 8 128 1000000 319 100 20 95 160 = true ∧
+    paramsOK 8 128 1000000 319 100 18 91 144 = false := by decide
 
 end Nfl.C10
